@@ -2,7 +2,7 @@
    and the per-language layouts/signatures.  Rests on C11 (Proofs/LayoutProofs.v) and on the table sweep
    (Proofs/TablesProofs.v). *)
 From Coq Require Import ZArith List Bool String Lia.
-From Defs Require Import Gen.TypeTables Model.Layout Model.Emit Proofs.LayoutProofs Proofs.TablesProofs
+From Defs Require Import Gen.TypeTables Gen.EmitGuards Model.Layout Model.Emit Proofs.LayoutProofs Proofs.TablesProofs
   Proofs.EmitCombined Proofs.EmitScope.
 Import ListNotations.
 Open Scope string_scope. Open Scope list_scope. Open Scope Z_scope.
@@ -106,7 +106,7 @@ Proof.
   unfold resolve_field in E. destruct (existsb (String.eqb (fd_name d)) reserved_field_names); [discriminate|].
   destruct (resolve_ftype (ps_aliases st) (ps_structs st) (ps_msgs st) (fd_type d)) as [[[k sz] a]|k|k] eqn:Et; try discriminate.
   destruct (fd_len d) as [e|].
-  - destruct (ceval (ps_consts st) e) as [v|]; [|discriminate]. destruct (v <? 1); [discriminate|].
+  - destruct (leval (ps_consts st) e) as [v|]; [|discriminate]. destruct (v <? add_fields_length_min); [discriminate|].
     inversion E; subst. eapply resolve_ftype_szok; eauto.
   - inversion E; subst. eapply resolve_ftype_szok; eauto.
 Qed.
@@ -291,7 +291,7 @@ Lemma resolve_field_nocrash cs al ss ms d k : resolve_field cs al ss ms d <> PCr
 Proof.
   unfold resolve_field. destruct (existsb (String.eqb (fd_name d)) reserved_field_names); [discriminate|].
   destruct (resolve_ftype al ss ms (fd_type d)) as [[[k0 sz] a]|k0|k0] eqn:E; [|discriminate|].
-  - destruct (fd_len d) as [e|]; [|discriminate]. destruct (ceval cs e) as [v|]; [|discriminate]. destruct (v <? 1); discriminate.
+  - destruct (fd_len d) as [e|]; [|discriminate]. destruct (leval cs e) as [v|]; [|discriminate]. destruct (v <? add_fields_length_min); discriminate.
   - exfalso. exact (resolve_ftype_nocrash _ _ _ _ _ E).
 Qed.
 Lemma resolve_fields_nocrash cs al ss ms l k : resolve_fields cs al ss ms l <> PCrash k.
@@ -555,8 +555,8 @@ Proof.
   unfold resolve_field in E. destruct (existsb (String.eqb (fd_name d)) reserved_field_names); [discriminate|].
   destruct (resolve_ftype al ss ms (fd_type d)) as [[[k sz] a]|k|k]; try discriminate.
   destruct (fd_len d) as [e|]; [|inversion E; subst; exact I].
-  destruct (ceval cs e) as [v|]; [|discriminate]. destruct (v <? 1) eqn:Ev; [discriminate|].
-  inversion E; subst. simpl. apply Z.ltb_ge in Ev. exact Ev.
+  destruct (leval cs e) as [v|]; [|discriminate]. destruct (v <? add_fields_length_min) eqn:Ev; [discriminate|].
+  inversion E; subst. simpl. apply Z.ltb_ge in Ev. unfold add_fields_length_min in Ev. exact Ev.
 Qed.
 
 Lemma resolved_plain st i : InvW st -> state_plain st = true -> forallb field_plain (resolved_fields st i) = true.
